@@ -220,10 +220,7 @@ def run(ctx):
                        'std::cmp::PartialEq::eq': 'eq', 'std::cmp::PartialEq::ne': 'ne'}
                 if nm in ops and len(vals) == 2:
                     def deref(v):
-                        for _ in range(4):
-                            if isinstance(v, tuple) and v and v[0] == 'ref':
-                                v = env.get(v[1], absint.UNKNOWN)
-                        return v
+                        return absint.deref(None, env, v)
                     a, b2 = deref(vals[0]), deref(vals[1])
                     if {a, b2} == {'DL', 'NOW'}:
                         rel = scen if a == 'DL' else {'lt': 'gt', 'gt': 'lt', 'eq': 'eq'}[scen]
